@@ -75,6 +75,9 @@ func (w *World) linearize(pre, final *Snapshot, cmds []ConcCmd) []string {
 				if c.ok() || c.Hung || c.lockBusy() || c.Op.Kind == "claim" {
 					continue
 				}
+				if c.Park != nil && c.Park.Kind == "error" {
+					continue // it failed because the harness made one of its system calls fail
+				}
 				justified := false
 				for _, st := range states {
 					if w.Predict(st, c.Op).Decision != MustAccept {
